@@ -100,7 +100,7 @@ def main(tier, seed=0):
     rcs = []
     runs = []
     if tier == "quick":
-        runs.append((C05Spec("astd", 3, keys), True))
+        runs.append((C05Spec("astd", 4, keys), True))
     else:
         runs.append((C05Spec("astd", 5, keys), True))
         runs.append((C05Spec("tok", 4, keys), True))
